@@ -170,3 +170,25 @@ reg(PropertySpec(
     assumptions=["@contextmanager runs the code after `yield` on normal exit and re-raises the body's exception at the yield point (assumed contract of contextlib)",
                  "the with-body may mutate only the *current* defaults dictionary (which is what fit/sample_posterior do)"],
 ))
+
+reg(PropertySpec(
+    "C14", "A checkpoint file stays self-consistent under any sequence of operations",
+    functions=["aspire:Aspire.fit", "aspire:Aspire.sample_posterior", "aspire:Aspire.auto_checkpoint", f"{SMC}:SMCSampler.build_checkpoint_state"],
+    native=_lazy("checks.native_ckpt", "native_C14"),
+    extra_static=_lazy1("checks.static_facts", "c12_names"),
+    technique="contract-based deductive verification: file/instance invariant J (stored flow is the instance's current flow; a stored checkpoint was weighted under the stored flow; the stored configuration names the sampler class that wrote the checkpoint) with ghost flow versions over an HDF5 group model; preservation by the real Aspire.fit and Aspire.sample_posterior for every argument / pre-state shape gives all operation sequences by induction (z3); bounded native enumeration of operation sequences on real files",
+    assumptions=["every Flow.fit produces a new proposal (ghost version)", "the sampler writes its checkpoint under checkpoint/state with prior_flow = the instance's flow (contract of the sampler entry points)",
+                 "auto_checkpoint and resume_from_file do not write to the file"],
+))
+
+reg(PropertySpec(
+    "C20", "Runs are reproducible given the same explicit random sources",
+    functions=["aspire:Aspire.sample_posterior", "samplers.smc.minipcn:MiniPCNSMC.sample", "samplers.smc.emcee:EmceeSMC.sample", "samplers.mcmc:MiniPCN.sample", "samplers.mcmc:Emcee.sample",
+               "samples:SMCSamples.resample", "samples:Samples.rejection_sample", f"{SMC}:SMCSampler.sample", "samplers.smc.minipcn:MiniPCNSMC.mutate", "samplers.smc.emcee:EmceeSMC.mutate",
+               f"{SMC}:SMCSampler.build_checkpoint_state", f"{SMC}:SMCSampler.restore_from_checkpoint"],
+    native=_lazy("checks.native_ckpt", "native_C20"),
+    extra_static=_lazy1("checks.static_facts", "c20_entropy"),
+    technique="contract-based deductive verification: generator *identity* tracked through every supply route (routing table computed from the real signatures; constructor, sample(), top-level sample_posterior) down to SMCSamples.resample, rejection_sample and the kernel hand-over (z3 over heap identities); every ambient entropy call enumerated from the ast and proved guarded or seeded; determinism of everything else follows from callees being functions of their arguments; bounded native double runs",
+    assumptions=["A-EXT/A-KERNEL: library calls and kernels are deterministic functions of their arguments and generator state", "the global torch generator is only reseeded by the flow constructor"],
+    miss=["nondeterminism inside torch/jax kernels", "BlackJAXSMC key handling (JAX) is outside the executable subset; its key is covered by the C11 finding"],
+))
